@@ -392,6 +392,10 @@ func init() {
 		Old:    "\t\t\tif isProvider(curBranchForm.payload_c, providerShadowName) || nameTypeExists(newGammaNameTypesCtx, curBranchForm.payload_c.Ident) {\n",
 		New:    "\t\t\tif nameTypeExists(newGammaNameTypesCtx, curBranchForm.payload_c.Ident) {\n",
 		Expect: "(*process.CaseForm).typecheckForm | binder-is-not-the-provider"})
+	addFixture(Fixture{Name: "live-name-keeps-its-old-control-channel", Rule: "R-SUBST-CHANNELS", File: "process/name.go",
+		Old:    "\t\tn.IsSelf = new.IsSelf\n\t\tn.ControlChannel = new.ControlChannel\n\t\t// n.Type = new.Type [type should remain the same, as set by the typechecker]\n",
+		New:    "\t\tn.IsSelf = new.IsSelf\n\t\t// n.Type = new.Type [type should remain the same, as set by the typechecker]\n",
+		Expect: "(*process.Name).Substitute | channels-move-together"})
 	addFixture(Fixture{Name: "line-table-copied-per-newline", Rule: "R-PER-RUNE-CONST", File: "parser/scanner.go",
 		Old:    "\t\ts.pos.Lines = append(s.pos.Lines, s.pos.Char)",
 		New:    "\t\ts.pos.Lines = append(append([]int{}, s.pos.Lines...), s.pos.Char)",
